@@ -1,0 +1,35 @@
+//go:build verif
+
+// Machine-checked contracts for package migrate, consumed by /verif/bin/walvc.
+// This file contains no code.
+
+package migrate
+
+//@ -- progress reporting closure: best effort, no effect on the copy
+//@ func CopyLogs$2
+//@   ensures true
+
+//@ func CopyLogs
+//@   props C19
+//@   requires ctx != nil && dst != nil && src != nil
+//@   requires src.last < 0x4000000000000000 && 0 <= dst.nstored && dst.nstored < 0x4000000000000000 && (progress == nil || !closed(progress))
+//@   assigns *
+//@   ensures[C19.closed] progress != nil ==> closed(progress)
+//@   ensures[C19.empty-source] src.first == 0 && src.last == 0 ==> nevent("call:raft.LogStore.GetLog") == 0
+//@   ensures[C19.count] result == nil && src.first <= src.last && src.last > 0 ==> dst.nstored == old(dst.nstored) + int(src.last - src.first + 1)
+//@   ensures[C19.prefix] dst.nstored >= old(dst.nstored)
+//@   tryensures[C19.prefix-bound] src.first <= src.last ==> dst.nstored - old(dst.nstored) <= int(src.last - src.first + 1)
+//@   loop 1 invariant src.first <= idx && (idx > src.first ==> idx <= src.last + 1) && first == src.first && last == src.last
+//@   loop 1 invariant 0 <= len(batch) && len(batch) <= int(idx - src.first) && dst.nstored + len(batch) == old(dst.nstored) + int(idx - src.first)
+//@   loop 1 invariant progress == nil || !closed(progress)
+
+//@ func CopyStable$2
+//@   ensures true
+
+//@ func CopyStable
+//@   props C19
+//@   requires ctx != nil && dst != nil && src != nil && (progress == nil || !closed(progress))
+//@   assigns *
+//@   ensures[C19.stable-closed] progress != nil ==> closed(progress)
+//@   loop 1 invariant progress == nil || !closed(progress)
+//@   loop 2 invariant progress == nil || !closed(progress)
